@@ -342,7 +342,9 @@ fn honest_pair_case<P: G>(cfg: Cfg) -> Box<dyn Case> {
 
 fn cases_for<P: G>(tier: Tier) -> Vec<Box<dyn Case>> {
     let mut cases: Vec<Box<dyn Case>> = Vec::new();
-    for cfg in lattice(tier.thorough()) {
+    let mut lat = lattice(tier.thorough());
+    lat.extend(lattice_large_capacity());
+    for cfg in lat {
         for (name, wit) in witness_cases(&cfg, tier) {
             let key = format!("{}/{}/{}", P::NAME, cfg.key(), name);
             let w = wit.clone();
